@@ -361,8 +361,19 @@ pub fn build_sprite(t: &mut Tape, c: &GenCfg) -> Sprite {
             1 + t.below(c.canvas_typ as u32) as u16
         }
     };
-    let width = dim(t);
-    let height = dim(t);
+    let mut width = dim(t);
+    let mut height = dim(t);
+    // occasionally one axis just around the 8-bit boundary (coordinates >= 256), the other kept small
+    if !c.big_canvas && t.chance(1, 14) {
+        let v = t.pick(&[255u16, 256, 257, 300]);
+        if t.chance(1, 2) {
+            width = v;
+            height = height.min(6);
+        } else {
+            height = v;
+            width = width.min(6);
+        }
+    }
     let mut s = Sprite::empty(width, height, fmt);
 
     // ---- palette ----
